@@ -39,10 +39,20 @@ def binders_of_alternatives_are_one_variable(F, res, rule="N19"):
     if td is None:
         res.anchor_missing(rule, "<syntax::ast::Pattern as ide::def::semantics::ToDef>::to_def")
         return
-    d = FL.Defs(td)
-    locs = [(b, s_) for b, i, s_ in td.stmts() if (s_.get("rv") or {}).get("k") == "agg" and str(s_["rv"].get("adt") or "").endswith("::Local")]
+    # the Local may be built in a private helper of the module that to_def delegates to (`local_for_pattern`)
+    units, seen_u = [td], {td.path}
+    for u in units:
+        if len(units) > 12:
+            break
+        for _b, t in u.calls():
+            q = callee(t) or ""
+            if q.startswith("ide::def::semantics::") and q in F.fns and F.fns[q].blocks and q not in seen_u and "{closure" not in q:
+                seen_u.add(q)
+                units.append(F.fns[q])
+    locs = [(u, b, s_) for u in units for b, i, s_ in u.stmts() if (s_.get("rv") or {}).get("k") == "agg" and str(s_["rv"].get("adt") or "").endswith("::Local")]
     ok, how = False, "no Local built in to_def"
-    for b, s_ in locs:
+    for u, b, s_ in locs:
+        d = FL.Defs(u)
         names = s_["rv"].get("fields") or []
         if "pat_id" not in names:
             continue
